@@ -120,3 +120,26 @@ Example C09_example :
       end
   | _ => false end = true.
 Proof. vm_compute. reflexivity. Qed.
+
+(** ---- the signatures (parameter names, order and default values) of the Weaver methods, as REGENERATED: the documented defaults ---- *)
+Open Scope string_scope.
+Definition formals_of (m : string) : option (list (string * option gexpr)) :=
+  match GlueSem.assoc m weaver_methods with Some fb => Some (fst fb) | None => None end.
+Theorem C09_glue_signatures :
+  formals_of "integral_match" = Some [("target_function_integral_method", Some (GStr "trapezoid"));
+                                      ("reference_function_integral_method", Some (GStr "rectangle")); ("**kwargs", None)] /\
+  formals_of "recreate_from_average" = Some [("n", None); ("rfa_class", Some (GVar "ExpAdaptiveRFA")); ("**kwargs", None)] /\
+  formals_of "interpolate" = Some [("n", Some GNone); ("new_x", Some GNone); ("method", Some (GStr "linear")); ("**kwargs", None)] /\
+  formals_of "append_one_sample" = Some [("make_periodic", Some (GBoolC false))] /\
+  formals_of "trend" = Some [("trend_func", None); ("normalized", Some (GBoolC false))] /\
+  formals_of "to_function" = Some [("s", Some (GInt 0))] /\
+  formals_of "smooth" = Some [("s", None)] /\
+  formals_of "noise" = Some [("snr", None); ("**kwargs", None)] /\
+  formals_of "truncate_by_value" = Some [("x_left", None); ("x_right", None); ("x_left_as_ratio", Some (GBoolC false)); ("x_right_as_ratio", Some (GBoolC false))] /\
+  formals_of "truncate_by_index" = Some [("start", Some (GInt 0)); ("stop", Some GNone)] /\
+  formals_of "slice_by_index" = Some [("start", Some (GInt 0)); ("stop", Some GNone); ("step", Some (GInt 1))] /\
+  formals_of "slice_by_value" = Some [("start", Some GNone); ("stop", Some GNone); ("step", Some (GInt 1))] /\
+  formals_of "__init__" = Some [("x", None); ("y", None)].
+Proof. repeat split; reflexivity. Qed.
+Print Assumptions C09_glue_signatures.
+Close Scope string_scope.
